@@ -102,6 +102,16 @@ Theorem C17_irregular_nonvacuous : forall r st,
   wf_irreg r st (irreg0 r st) /\ emit_irr r (irreg0 r st) = emit r.
 Proof. intros r st Hwf Hst. split; [apply wf_irreg0; assumption|apply emit_irr0; assumption]. Qed.
 
+From Peppi Require Proofs.ReaderTies Proofs.WriterTies.
+(* the reader model these theorems speak about is the one regenerated from the source on this run: one-shot read, every incremental
+   entry point, the event dispatch with the splitter, the Game Start wiring, the metadata reader (Proofs/ReaderTies.v reader_tied) *)
+Theorem C17_reader_is_the_source : ReaderTies.reader_tied.
+Proof. exact ReaderTies.reader_tied_holds. Qed.
+(* the writer model these theorems speak about is the one regenerated from the source on this run: the statement sequence of write(),
+   the payload-size table, the frame counts, the frame writer, the gecko blocks, the metadata writer (Proofs/WriterTies.v writer_tied) *)
+Theorem C17_writer_is_the_source : WriterTies.writer_tied.
+Proof. exact WriterTies.writer_tied_holds. Qed.
+
 Print Assumptions C17_fixed_point.
 Print Assumptions C17_irregular_read.
 Print Assumptions C17_irregular_fixed_point.
@@ -113,3 +123,5 @@ Print Assumptions C17_reordered_nonvacuous.
 Print Assumptions C17_unknown_events_dropped.
 Print Assumptions C17_raw_size_from_source.
 Print Assumptions C17_frame_counts_from_source.
+Print Assumptions C17_reader_is_the_source.
+Print Assumptions C17_writer_is_the_source.
